@@ -478,6 +478,15 @@ def run(ctx):
     return
   for hi, hist in ctx.items(hists, 'history'):
     run_history(ctx, hi, hist)
-  ahists = [h for h in hists if h['backend'] == 'legacy'][: (4 if ctx.tier == 'quick' else 30)]
+  # async histories: outcomes that depend on the previous save having been committed (same step again, older step,
+  # overwrite of an older step) are always included
+  ahists = []
+  for io in ('TF', 'DEFAULT'):
+    ahists += [
+        dict(backend='legacy', io=io, prefix='checkpoint_', variant='same_no_overwrite', ops=[(1, 2, None, False), (2, 2, None, False), (2, 2, None, False), (3, 2, None, False)]),
+        dict(backend='legacy', io=io, prefix='ck2pt_', variant='older_no_overwrite', ops=[(5, 1, None, False), (6, 1, None, False), (5.5, 1, None, False), (7, 1, None, False)]),
+        dict(backend='legacy', io=io, prefix='model.', variant='overwrite_older', ops=[(1, 3, None, False), (2, 3, None, False), (3, 3, None, False), (2, 3, None, True), (4, 3, 2, False)]),
+    ]
+  ahists += [h for h in hists if h['backend'] == 'legacy'][: (2 if ctx.tier == 'quick' else 30)]
   for hi, hist in ctx.items(ahists, 'async'):
     run_async(ctx, hi, hist)
